@@ -10,7 +10,9 @@ META = {
     "engine": "E1+E2+E3+E5",
     "text": "Coq theorems over an executable model of ReusableVector (size, constructed_size, capacity, per-cell "
             "raw/constructed ghost state) for every sequence of push/pop/insert/emplace/erase/resize/reserve/assign/"
-            "clear/swap/copy/move operations on two vectors sharing a resource: the contents always equal the "
+            "clear operations and every special member function (plain and allocator-extended copy / move construction, copy / "
+            "move assignment with equal and different allocators, member swap, ADL swap, std::swap) on two vectors that both "
+            "stay in use afterwards: the contents always equal the "
             "std::vector (list) result, size <= constructed <= capacity, no construct over a live element and no "
             "assign/destroy of raw storage, constructor/destructor calls balance, clear keeps capacity and "
             "constructed elements, the manager's clear leaves an empty instance and its periodic rebuild keeps every "
@@ -59,6 +61,7 @@ class Gen:
         self.r = rng
         self.sz = {"a": 0, "b": 0}
         self.cs = {"a": 0, "b": 0}
+        self.res = {"a": 1, "b": 1}      # which of the two resources the object's allocator refers to
         self.maxn = maxn
 
     def val(self):
@@ -127,26 +130,123 @@ class Gen:
         self.cs[w] = max(self.cs[w], self.sz[w])
         return t
 
-    def op2(self, allow_zero=True):
+    def whole(self, kind=None):
+        """one whole-object operation (special member function / swap); both objects stay in use afterwards."""
         r = self.r
-        k = r.below(14)
-        if k == 0:
-            self.sz["a"], self.sz["b"] = self.sz["b"], self.sz["a"]
-            self.cs["a"], self.cs["b"] = self.cs["b"], self.cs["a"]
-            return "swap"
-        if k == 1 and r.chance(1, 2):
-            w, o = r.choice([("a", "b"), ("b", "a")])
+        w, o = r.choice([("a", "b"), ("b", "a")])
+        same = self.res[w] == self.res[o]
+        kind = kind or r.choice(["swap", "swapstd", "cp", "mv", "cc", "cx", "mc", "mc", "mx", "mx"])
+        if kind in ("swap", "swapstd"):
+            if not same:
+                kind = "cp"
+            else:
+                self.sz["a"], self.sz["b"] = self.sz["b"], self.sz["a"]
+                self.cs["a"], self.cs["b"] = self.cs["b"], self.cs["a"]
+                return kind
+        if kind == "cp":
             self.sz[w] = self.sz[o]
             self.cs[w] = max(self.cs[w], self.sz[w])
             return "cp" + w + o
-        if k == 2 and r.chance(1, 2):
-            w, o = r.choice([("a", "b"), ("b", "a")])
-            sw, cw = self.sz[w], self.cs[w]
+        if kind == "mv":
+            if same:
+                cw = self.cs[w]
+                self.sz[w], self.cs[w] = self.sz[o], self.cs[o]
+                self.sz[o], self.cs[o] = 0, cw
+                return "mv" + w + o
+            self.sz[w] = self.sz[o]
+            self.cs[w] = max(self.cs[w], self.sz[w])
+            self.sz[o] = 0
+            return "mv" + w + o + "d"
+        if kind == "cc":
+            self.sz[w] = self.cs[w] = self.sz[o]
+            self.res[w] = self.res[o]
+            return "cc" + w + o
+        if kind == "cx":
+            k = 1 + r.below(2)
+            self.sz[w] = self.cs[w] = self.sz[o]
+            self.res[w] = k
+            return "cx%s%s%d" % (w, o, k)
+        if kind == "mc":
             self.sz[w], self.cs[w] = self.sz[o], self.cs[o]
-            self.sz[o], self.cs[o] = 0, cw
-            return "mv" + w + o
+            self.sz[o], self.cs[o] = 0, 0
+            self.res[w] = self.res[o]
+            return "mc" + w + o
+        k = 1 + r.below(2)
+        if k == self.res[o]:
+            self.sz[w], self.cs[w] = self.sz[o], self.cs[o]
+            self.sz[o], self.cs[o] = 0, 0
+            self.res[w] = k
+            return "mx%s%s%ds" % (w, o, k)
+        self.sz[w] = self.cs[w] = self.sz[o]
+        self.sz[o] = 0
+        self.res[w] = k
+        return "mx%s%s%dd" % (w, o, k)
+
+    def op2(self, allow_zero=True):
+        r = self.r
+        if r.below(14) < 3:
+            return self.whole()
         w = "a" if r.chance(2, 3) else "b"
         return w + "." + self.op(w, allow_zero)
+
+
+def special_cases(rng):
+    """every special member function / swap flavour on vectors with and without a reuse window, then BOTH objects keep
+    being used: push_back, assign, resize, reserve, insert, clear, and finally their destruction."""
+    out = []
+    setups = [["b.asr.10,11,12"], ["b.asr.10,11,12,13,14", "b.er.1.4", "a.asr.1,2"], ["b.asr.10,11", "b.clr", "a.pb.1"],
+              ["a.asr.1,2,3", "a.pop"]]
+    follow = [["%s.pb.7", "%s.pb.8", "%s.asr.4,5,6"], ["%s.asn.3.9", "%s.rs.6"], ["%s.res.9", "%s.pb.3"],
+              ["%s.insn.0.2.6", "%s.clr", "%s.pb.2"], ["%s.rsv.4.5", "%s.insr.1.7,8"]]
+    for kind in ["swap", "swapstd", "cp", "mv", "cc", "cx", "mc", "mx"]:
+        for si, setup in enumerate(setups):
+            for rep in range(3):
+                g = Gen(rng)
+                toks = list(setup)
+                # replay the setup through the tracker (sizes only matter for validity of later random ops)
+                for t in setup:
+                    w, f = t.split(".", 1)
+                    f = f.split(".")
+                    if f[0] == "asr":
+                        g.sz[w] = len(f[1].split(","))
+                    elif f[0] == "er":
+                        g.sz[w] -= int(f[2]) - int(f[1])
+                    elif f[0] == "clr":
+                        g.sz[w] = 0
+                    elif f[0] == "pb":
+                        g.sz[w] += 1
+                    elif f[0] == "pop":
+                        g.sz[w] -= 1
+                    g.cs[w] = max(g.cs[w], g.sz[w])
+                if rep == 2:
+                    toks.append(g.whole("cx"))       # put one object on the other resource first
+                toks.append(g.whole(kind))
+                fa, fb = follow[(si + rep) % len(follow)], follow[(si + rep + 2) % len(follow)]
+                for x, y in zip(fa, fb):
+                    for w, t in (("b", x), ("a", y)):
+                        t = t % w
+                        f = t.split(".")
+                        # keep the tracker in step and the op valid
+                        if f[1] == "insn":
+                            g.sz[w] += int(f[3])
+                        elif f[1] == "insr":
+                            if g.sz[w] < int(f[2]):
+                                continue
+                            g.sz[w] += len(f[3].split(","))
+                        elif f[1] == "pb":
+                            g.sz[w] += 1
+                        elif f[1] == "asr":
+                            g.sz[w] = len(f[2].split(","))
+                        elif f[1] in ("asn", "rs", "rsv"):
+                            g.sz[w] = int(f[2])
+                        elif f[1] == "clr":
+                            g.sz[w] = 0
+                        g.cs[w] = max(g.cs[w], g.sz[w])
+                        toks.append(t)
+                toks.append(g.whole(kind))
+                toks += [g.op2() for _ in range(4)]
+                out.append(toks)
+    return out
 
 
 def boundary_cases(ty, maxcs, zero):
@@ -221,6 +321,11 @@ def main(argv):
                      ["a.asr.1,2,3,4", "a.er.2.4", "a.insn.2.0.9", "a.rs.4"]):
             lines.append(("v%d" % n, "b", "V", "V b " + " ".join(toks)))
             n += 1
+        # 1b. every special member function / swap flavour, both objects used afterwards
+        for ty in TYPES_V:
+            for toks in special_cases(chk.rng):
+                lines.append(("v%d" % n, ty, "V", "V %s %s" % (ty, " ".join(toks))))
+                n += 1
         # 2. random two-vector sequences
         for ty in TYPES_V:
             for _ in range(2500 if thorough else 260):
@@ -275,6 +380,7 @@ def main(argv):
               ("disc", "ctor-dtor-discipline", "an element was constructed over a live one, or raw storage was assigned/destroyed"),
               ("live_ok", "live-count", "live elements in the resource != constructed_size"),
               ("dtor_bal", "dtor-balance", "elements still alive after the vectors were destroyed")]
+    # alloc_ok=0 means the generator's idea of which resource an object lives on is wrong (harness problem, not a finding)
     SIGS_M = [("fresh", "clear-not-fresh", "after manager.clear() the instance is not empty"),
               ("acc_ok", "accessor-invalid", "accessor does not point into the manager's resource after clear"),
               ("keep", "manager-clear-lost-capacity", "logical clear through the manager shrank capacity / moved the buffer"),
@@ -331,6 +437,8 @@ def main(argv):
                     chk.violate("contents-differ-from-std", "contents of a vector of %s elements differ from std::vector after "
                                 "op #%d (%s) of: %s" % ({"b": "std::basic_string", "i": "int", "c": "counting", "s": "SwissString",
                                                          "n": "nested vector"}.get(ty, ty), fb, tok, t), rep)
+            if mon.get("alloc_ok", "1") != "1":
+                chk.broke("harness", "resource tracking of case " + i, t)
             for key, sig, what in (SIGS_V if mode in ("V", "A") else SIGS_M if mode == "M" else SIGS_M[:3] + SIGS_M[4:6]):
                 if key in mon and mon[key] != "1":
                     chk.violate(sig, "%s: %s" % (what, t), rep)
